@@ -555,7 +555,7 @@ func init() {
 	})
 
 	register(&Rule{
-		ID: "C13.R23", Props: []string{"C13"}, Min: 1,
+		ID: "C13.R23", Props: []string{"C13", "C03"}, Min: 1,
 		Doc: "a literal index is digits or a quoted key: where IsVariablePath decides what the text between [ ] may be for the whole expression to count as a plain path (the scope lookup then walks it), no lenient number parser — strconv.Atoi / ParseInt / ParseFloat, which also read signs, and for floats exponents, inf and nan — is asked, unless the first byte was tested first. `items[-1]` is an expression (the evaluator counts from the end); taken for a path it is looked up, not found, and prints nothing in {{ }} and bound attributes while v-if still sees the last element",
 		Run: func(p *Prog, c *Ctx) {
 			fns := []*ssa.Function{p.MustFn("helpers.IsVariablePath")}
